@@ -122,6 +122,15 @@ func (d *FileSystemDirectory) Persist(kind string, id uint64, w WriterTo, closeC
 		_ = os.Remove(path)
 	}
 
+	// the file may exist already (a leftover of an earlier incarnation of the same id);
+	// now that the exclusive lock is ours, discard its old content so that no stale
+	// tail survives behind the new bytes
+	err = f.File().Truncate(0)
+	if err != nil {
+		cleanup()
+		return err
+	}
+
 	_, err = w.WriteTo(f.File(), closeCh)
 	if err != nil {
 		cleanup()
